@@ -91,6 +91,7 @@ def gen_program(rng, names_bias):
             "basename": 1 if (names_bias or rng.random() < 0.5) else 0, "layers": layers,
             "bindpos": rng.randrange(depth + 1), "flat": 1 if rng.random() < (0.5 if kind == 4 else 0.2) else 0,
             "kind": kind, "subs": subs, "attrs": bool(kind == 3 and rng.random() < 0.5),
+            "falsy": bool(kind == 3 and rng.random() < 0.4),
             "derive_junk": rng.choice([0, 0, 1, 1])}
 
 
